@@ -59,7 +59,9 @@ func (f *EnumValue) DeprecationReason() *string {
 
 	reason := f.deprecation.Arguments.ForName("reason")
 	if reason == nil {
-		return nil
+		// @deprecated without a reason has the directive's default reason
+		defaultReason := "No longer supported"
+		return &defaultReason
 	}
 
 	return &reason.Value.Raw
@@ -102,7 +104,9 @@ func (f *InputValue) DeprecationReason() *string {
 
 	reason := f.deprecation.Arguments.ForName("reason")
 	if reason == nil {
-		return nil
+		// @deprecated without a reason has the directive's default reason
+		defaultReason := "No longer supported"
+		return &defaultReason
 	}
 
 	return &reason.Value.Raw
